@@ -380,6 +380,24 @@ def c14_run(rep, rng, tier, term):
             check_equal('color256', ref, ['%scolor256(%d)' % (pre, v), '%scolour256(0x%x)' % (pre, v), '%scolor256( %d )' % (pre, v), '%scolor256([%d])' % (pre, v)],
                         {'helper': nm + '256', 'value': v})
             reqs.append([7, [1, '%scolor256(%d)' % (pre, v)]]); meta.append(('%scolor256(%d)' % (pre, v), call(lambda: settings_of(ref))))
+    # the British-spelling helper functions are the same helpers (function aliases, not only the string forms)
+    from ansi_string.ansi_format import ColorComponentType as _CCT
+    for v in (0, 7, 16, 255):
+        for a, b in (('color256', 'colour256'), ('fg_color256', 'fg_colour256'), ('bg_color256', 'bg_colour256'),
+                     ('ul_color256', 'ul_colour256'), ('dul_color256', 'dul_colour256')):
+            ra, rb = call(lambda: settings_of(getattr(AnsiFormat, a)(v))), call(lambda: settings_of(getattr(AnsiFormat, b)(v)))
+            rep.count({'helper': a, 'alias': b, 'value': v}, True)
+            if ra != rb:
+                viol.append({'oracle': 'C14.color256', 'case': {'helper': a, 'alias': b, 'value': v}, 'msg': 'AnsiFormat.%s(%d) gives %s, AnsiFormat.%s gives %s' % (a, v, ra, b, rb)})
+        for comp, nm in ((_CCT.FOREGROUND, 'fg_'), (_CCT.BACKGROUND, 'bg_'), (_CCT.UNDERLINE, 'ul_'), (_CCT.DOUBLE_UNDERLINE, 'dul_')):
+            ra = call(lambda: settings_of(AnsiFormat.colour256(v, comp)))
+            rb = call(lambda: settings_of(getattr(AnsiFormat, nm + 'color256')(v)))
+            rc = call(lambda: settings_of(AnsiFormat.rgb(v, v + 1, 3, comp)))
+            rd = call(lambda: settings_of(getattr(AnsiFormat, nm + 'rgb')(v, v + 1, 3)))
+            rep.count({'helper': 'colour256/rgb with component', 'component': nm, 'value': v}, True)
+            if ra != rb or rc != rd:
+                viol.append({'oracle': 'C14.color256', 'case': {'component': nm, 'value': v},
+                             'msg': 'component argument and %s helpers disagree: %s vs %s ; %s vs %s' % (nm, ra, rb, rc, rd)})
     # several directives in one string, nestings and mixtures
     g = Gen(rng, odd=False)
     for _ in range(400 if tier == 'quick' else 20000):
@@ -1096,7 +1114,13 @@ def c13_run(rep, rng, tier, term):
                                ('in', lambda: 'a' in o, lambda: 'a' in twin),
                                ('format', lambda: format(o, '>%d:red' % (len(o) + 2)), lambda: format(twin, '>%d:red' % (len(o) + 2))),
                                ('join', lambda: AnsiString.join(o, 'x', other), lambda: AnsiStr.join(twin, 'x', other)),
-                               ('+=', lambda: AnsiString(o).__iadd__(other), lambda: twin.__iadd__(other))):
+                               ('+=', lambda: AnsiString(o).__iadd__(other), lambda: twin.__iadd__(other)),
+                               ('apply_formatting_for_match',
+                                lambda: (lambda c: (c.apply_formatting_for_match('bg_blue', re.search('(a+)(b*)', c.base_str) or re.search('', c.base_str), 0), c)[1])(AnsiString(o)),
+                                lambda: twin.apply_formatting_for_match('bg_blue', re.search('(a+)(b*)', twin.base_str) or re.search('', twin.base_str), 0)),
+                               ('apply_formatting_for_match group',
+                                lambda: (lambda c: (c.apply_formatting_for_match(['bold', 'red'], re.search('(a*)(b+|$)', c.base_str), 2), c)[1])(AnsiString(o)),
+                                lambda: twin.apply_formatting_for_match(['bold', 'red'], re.search('(a*)(b+|$)', twin.base_str), 2))):
             payload = {'history': ops, 'object': i, 'operator': opname}
             rep.count(payload, True)
             ra, rb = call(fa), call(fb)
